@@ -30,6 +30,7 @@ const (
 	VTuple
 	VNil
 	VOpaque // a non-nil value whose content is irrelevant (error objects)
+	VList   // an immutable table (package-level composite literal of constants)
 )
 
 type Val struct {
@@ -94,6 +95,9 @@ type cEnv struct {
 	hook  callHook
 	depth int
 	steps *int
+	// loops permits bounded execution of for-statements (used only for the
+	// finite cursor automaton of the parsers; 64 iterations at most)
+	loops bool
 	// ratArith permits exact rational + - * (used only on one-decimal table
 	// values: differences of MacroVector scores)
 	ratArith bool
@@ -105,7 +109,7 @@ func newCEnv(p *Pkg, bytes []uint8) *cEnv {
 }
 
 func (e *cEnv) child() *cEnv {
-	return &cEnv{p: e.p, bytes: e.bytes, vars: map[types.Object]Val{}, hook: e.hook, depth: e.depth + 1, steps: e.steps, ratArith: e.ratArith}
+	return &cEnv{p: e.p, bytes: e.bytes, vars: map[types.Object]Val{}, hook: e.hook, depth: e.depth + 1, steps: e.steps, ratArith: e.ratArith, loops: e.loops}
 }
 
 // bytesFromCodes assembles receiver bytes from metric codes through Set's
@@ -468,6 +472,48 @@ func (e *cEnv) exec(s ast.Stmt) (ctrl, Val, error) {
 			return run(def)
 		}
 		return cNext, Val{}, nil
+	case *ast.ForStmt:
+		if !e.loops {
+			return cNext, Val{}, undecidedf(s, "loop outside the fragment language")
+		}
+		if st.Init != nil {
+			if ct, v, err := e.exec(st.Init); err != nil || ct != cNext {
+				return ct, v, err
+			}
+		}
+		for it := 0; ; it++ {
+			if it > 64 {
+				return cNext, Val{}, undecidedf(s, "loop does not terminate within 64 iterations on the finite model")
+			}
+			if st.Cond != nil {
+				c, err := e.eval(st.Cond)
+				if err != nil {
+					return cNext, Val{}, err
+				}
+				if c.K != VBool {
+					return cNext, Val{}, undecidedf(st.Cond, "non-boolean condition")
+				}
+				if c.I == 0 {
+					break
+				}
+			}
+			ct, v, err := e.execBlock(st.Body.List)
+			if err != nil {
+				return cNext, Val{}, err
+			}
+			if ct == cReturn {
+				return ct, v, nil
+			}
+			if ct == cBreak {
+				break
+			}
+			if st.Post != nil {
+				if ct, v, err := e.exec(st.Post); err != nil || ct != cNext {
+					return ct, v, err
+				}
+			}
+		}
+		return cNext, Val{}, nil
 	case *ast.BranchStmt:
 		switch st.Tok {
 		case token.BREAK:
@@ -700,8 +746,16 @@ func (e *cEnv) eval(x ast.Expr) (Val, error) {
 		if v, ok := e.vars[obj]; ok {
 			return v, nil
 		}
-		if _, isVar := obj.(*types.Var); isVar && obj.Parent() == e.p.P.Types.Scope() {
-			// package-level variable: opaque non-nil (error sentinels)
+		if pv, isVar := obj.(*types.Var); isVar && obj.Parent() == e.p.P.Types.Scope() {
+			// package-level table of constants (never written: R14.globals)
+			if _, isSlice := pv.Type().Underlying().(*types.Slice); isSlice {
+				if init := e.p.pkgVarInit(pv); init != nil {
+					if lv, ok := e.p.listValue(init); ok {
+						return lv, nil
+					}
+				}
+			}
+			// other package-level variable: opaque non-nil (error sentinels)
 			return Val{K: VOpaque, S: obj.Name()}, nil
 		}
 		return Val{}, undecidedf(x, "identifier %s has no value in the fragment", n.Name)
@@ -796,6 +850,58 @@ func (e *cEnv) eval(x ast.Expr) (Val, error) {
 		return e.binop(n.Op, a, b, t, x)
 	case *ast.CompositeLit:
 		return Val{K: VOpaque, S: types.ExprString(n)}, nil
+	case *ast.IndexExpr:
+		a, err := e.eval(n.X)
+		if err != nil {
+			return Val{}, err
+		}
+		i, err := e.eval(n.Index)
+		if err != nil {
+			return Val{}, err
+		}
+		if i.K != VInt {
+			return Val{}, undecidedf(x, "non-integer index")
+		}
+		switch a.K {
+		case VList:
+			if i.I < 0 || int(i.I) >= len(a.T) {
+				return Val{}, &panicked{pos: x.Pos(), msg: fmt.Sprintf("index %d out of range [0,%d) in %s", i.I, len(a.T), types.ExprString(n))}
+			}
+			return a.T[i.I], nil
+		case VStr:
+			if i.I < 0 || int(i.I) >= len(a.S) {
+				return Val{}, &panicked{pos: x.Pos(), msg: fmt.Sprintf("index %d out of range of a string of length %d", i.I, len(a.S))}
+			}
+			return vInt(int64(a.S[i.I])), nil
+		}
+		return Val{}, undecidedf(x, "indexing a %s", a)
+	case *ast.SliceExpr:
+		a, err := e.eval(n.X)
+		if err != nil {
+			return Val{}, err
+		}
+		if a.K != VStr || n.Slice3 {
+			return Val{}, undecidedf(x, "slice expression outside the fragment language")
+		}
+		lo, hi := int64(0), int64(len(a.S))
+		if n.Low != nil {
+			v, err := e.eval(n.Low)
+			if err != nil {
+				return Val{}, err
+			}
+			lo = v.I
+		}
+		if n.High != nil {
+			v, err := e.eval(n.High)
+			if err != nil {
+				return Val{}, err
+			}
+			hi = v.I
+		}
+		if lo < 0 || hi > int64(len(a.S)) || lo > hi {
+			return Val{}, &panicked{pos: x.Pos(), msg: fmt.Sprintf("slice bounds [%d:%d] out of range of a string of length %d", lo, hi, len(a.S))}
+		}
+		return vStr(a.S[lo:hi]), nil
 	case *ast.CallExpr:
 		return e.evalCall(n)
 	}
@@ -839,6 +945,9 @@ func (e *cEnv) evalCall(n *ast.CallExpr) (Val, error) {
 				}
 				if a.K == VStr {
 					return vInt(int64(len(a.S))), nil
+				}
+				if a.K == VList {
+					return vInt(int64(len(a.T))), nil
 				}
 			}
 			return Val{}, undecidedf(n, "builtin %s", id.Name)
@@ -969,4 +1078,38 @@ func exactConst(info *types.Info, x ast.Expr) (*big.Rat, bool) {
 	}
 	r, ok := new(big.Rat).SetString(tv.Value.ExactString())
 	return r, ok
+}
+
+// listValue converts a composite literal of constants (nested) into a VList.
+func (p *Pkg) listValue(e ast.Expr) (Val, bool) {
+	cl, ok := e.(*ast.CompositeLit)
+	if !ok {
+		if tv, ok := p.Info.Types[e]; ok && tv.Value != nil {
+			return constVal(tv)
+		}
+		return Val{}, false
+	}
+	var out []Val
+	idx := 0
+	for _, el := range cl.Elts {
+		v := el
+		if kv, ok := el.(*ast.KeyValueExpr); ok {
+			k, ok := constUint(p.Info, kv.Key)
+			if !ok {
+				return Val{}, false
+			}
+			idx = int(k)
+			v = kv.Value
+		}
+		c, ok := p.listValue(v)
+		if !ok {
+			return Val{}, false
+		}
+		for len(out) <= idx {
+			out = append(out, Val{K: VList})
+		}
+		out[idx] = c
+		idx++
+	}
+	return Val{K: VList, T: out}, true
 }
